@@ -15,6 +15,7 @@ import (
 	rlutil "github.com/kubewharf/kubegateway/pkg/ratelimiter/util"
 
 	"kgsim/sim"
+	"kgsim/simapi"
 )
 
 type quota struct {
@@ -82,14 +83,40 @@ func recordedQuotas(rp *Replica, up string, insts []string, s *schemaCfg) (map[s
 }
 
 // RunC07: the allocation never over-commits.
-func RunC07(r *sim.Run) {
+func RunC07(r *sim.Run) { runC07(r, false) }
+
+// RunC07H: the same honest-report workload and the same oracle with the
+// API-backed store (write-through or periodic) and two replicas that crash,
+// lose the lease API, and are restarted: the quotas a replica has on record
+// after it took a shard over are as binding as the ones it handed out itself.
+func RunC07H(r *sim.Run) { runC07(r, true) }
+
+func runC07(r *sim.Run, handover bool) {
 	t := r.T
 	nRep := t.Range(1, 2)
 	shards := []int{1, 2, 3}[t.Draw(3)]
-	w := NewWorld(r, nRep, shards, "local", 0)
+	store, period := "local", time.Duration(0)
+	if handover {
+		nRep, store = 2, "k8s"
+		if t.Draw(3) == 0 {
+			period = time.Second
+		}
+	}
+	w := NewWorld(r, nRep, shards, store, period)
 	defer w.Stop()
+	if handover {
+		w.Cond.Fault = func(node, verb, name string) int {
+			if w.isDead(node) {
+				select {} // a dead process never returns from its call
+			}
+			return simapi.Proceed
+		}
+	}
 	for i := range w.Replicas {
 		w.StartReplica(i)
+	}
+	if handover {
+		w.TrackLeadership()
 	}
 	limits := []int32{1, 2, 5, 10, 20, 50, 100, 1000, 100000}
 	ups := []string{"up-a", "up-b"}[:t.Range(1, 2)]
@@ -124,10 +151,55 @@ func RunC07(r *sim.Run) {
 	}
 
 	reports, answered, limitChanges, lowered := 0, 0, 0, 0
+	leaderChanges, answeredAfterChange := 0, 0
+	prevLeader := map[int]string{}
+	weights := []int{14, 2, 3, 1}
+	if handover {
+		weights = []int{14, 1, 3, 1, 2, 1}
+	}
 	nSteps := t.Range(20, 80)
 	for step := 0; step < nSteps && !r.Violated(); step++ {
 		r.Step = step
-		switch t.Pick([]int{14, 2, 3, 1}) {
+		if handover {
+			for s := 0; s < shards; s++ {
+				if ls := w.LeadersOf(s); len(ls) == 1 {
+					if prevLeader[s] != "" && prevLeader[s] != ls[0].Name {
+						leaderChanges++
+					}
+					prevLeader[s] = ls[0].Name
+				}
+			}
+		}
+		switch t.Pick(weights) {
+		case 4: // a replica crashes, or loses / regains the lease API (it stops leading gracefully)
+			i := t.Draw(2)
+			rp := w.Replicas[i]
+			if w.isDead(rp.Name) {
+				break
+			}
+			if t.Draw(2) == 0 {
+				if !w.isDead(w.Replicas[1-i].Name) {
+					w.Crash(i)
+					r.Fault("crash")
+					r.Logf("crash %s", rp.Name)
+				}
+			} else {
+				cut := !w.apiCut(rp.Name)
+				w.SetAPICut(rp.Name, cut)
+				r.Fault("partition")
+				r.Logf("lease api cut %s=%v", rp.Name, cut)
+			}
+			w.Advance([]time.Duration{0, time.Second, 4 * time.Second, 6 * time.Second}[t.Draw(4)])
+		case 5: // a dead replica is restarted
+			for i, rp := range w.Replicas {
+				if w.isDead(rp.Name) {
+					w.SetAPICut(rp.Name, false)
+					w.StartReplica(i)
+					r.Fault("restart")
+					r.Logf("restart %s", rp.Name)
+					break
+				}
+			}
 		case 0: // an honest report
 			in := insts[t.Draw(len(insts))]
 			if !in.gw.Alive {
@@ -191,6 +263,9 @@ func RunC07(r *sim.Run) {
 				break
 			}
 			answered++
+			if leaderChanges > 0 {
+				answeredAfterChange++
+			}
 			var parts []string
 			for _, s := range ss {
 				var q, b int32
@@ -257,9 +332,15 @@ func RunC07(r *sim.Run) {
 						return
 					}
 				} else if prev.known {
+					// "no quota grows": neither beyond what the instance held nor beyond what
+					// was on record for it (the two differ after a lost answer)
+					base := prev.q
+					if rec, ok := bm[id]; ok && rec > base {
+						base = rec
+					}
 					r.Checked("no_growth_when_over_limit")
-					if q > prev.q {
-						r.Violate("quota_grew_while_over_limit", "c07", "upstream %s schema %s (limit %d): recorded quotas summed to %d (> limit) yet instance %s grew from %d to %d", in.up, s.name, L, S, id, prev.q, q)
+					if q > base {
+						r.Violate("quota_grew_while_over_limit", "c07", "upstream %s schema %s (limit %d): recorded quotas summed to %d (> limit) yet instance %s grew from %d (on record: %d) to %d", in.up, s.name, L, S, id, prev.q, bm[id], q)
 						return
 					}
 				}
@@ -302,7 +383,15 @@ func RunC07(r *sim.Run) {
 	r.ProbeN("limit_changes", limitChanges)
 	r.ProbeN("limit_lowered", lowered)
 	r.Nontrivial = answered >= 5 && nInst >= 2
-	r.Sample = map[string]interface{}{"replicas": nRep, "shards": shards, "instances": len(insts), "reports": reports, "answered": answered, "limit_changes": limitChanges}
+	sample := map[string]interface{}{"replicas": nRep, "shards": shards, "instances": len(insts), "reports": reports, "answered": answered, "limit_changes": limitChanges}
+	r.Sample = sample
+	if handover {
+		r.ProbeN("leader_changes", leaderChanges)
+		r.ProbeN("reports_answered_after_a_leader_change", answeredAfterChange)
+		r.Nontrivial = r.Nontrivial && answeredAfterChange > 0
+		sample["store"] = "k8s/" + period.String()
+		sample["leader_changes"] = leaderChanges
+	}
 }
 
 func rangeSig(q, L int32) string {
